@@ -61,6 +61,10 @@ struct State {
 pub struct Sched {
     state: Mutex<State>,
     cv: Condvar,
+    /// who holds the baton (usize::MAX: nobody) -- read without the lock by waiting threads
+    current: std::sync::atomic::AtomicUsize,
+    aborted: std::sync::atomic::AtomicBool,
+    handles: Mutex<Vec<Option<std::thread::Thread>>>,
 }
 
 thread_local! {
@@ -83,7 +87,27 @@ impl Sched {
                 horizon: 20_000,
             }),
             cv: Condvar::new(),
+            current: std::sync::atomic::AtomicUsize::new(usize::MAX),
+            aborted: std::sync::atomic::AtomicBool::new(false),
+            handles: Mutex::new(vec![None; n]),
         })
+    }
+
+    /// publish the decision taken under the lock and wake exactly the chosen thread
+    fn publish(&self, st: &State) {
+        use std::sync::atomic::Ordering::SeqCst;
+        self.aborted.store(st.aborted, SeqCst);
+        self.current.store(st.current.unwrap_or(usize::MAX), SeqCst);
+        let hs = self.handles.lock().unwrap();
+        if st.aborted {
+            for h in hs.iter().flatten() {
+                h.unpark();
+            }
+        } else if let Some(c) = st.current {
+            if let Some(h) = &hs[c] {
+                h.unpark();
+            }
+        }
     }
 
     fn enabled(st: &State, t: usize) -> bool {
@@ -160,17 +184,20 @@ impl Sched {
     }
 
     fn wait_for_turn(&self, me: usize) {
-        let mut st = self.state.lock().unwrap();
+        use std::sync::atomic::Ordering::SeqCst;
         loop {
-            if st.aborted {
-                drop(st);
+            if self.aborted.load(SeqCst) {
                 panic!("schedule aborted");
             }
-            if st.current == Some(me) {
+            if self.current.load(SeqCst) == me {
                 return;
             }
-            st = self.cv.wait(st).unwrap();
+            std::thread::park_timeout(std::time::Duration::from_millis(20));
         }
+    }
+
+    fn register(&self, me: usize) {
+        self.handles.lock().unwrap()[me] = Some(std::thread::current());
     }
 
     fn park(&self, me: usize, want_cell: Option<u8>, label: &str) {
@@ -182,7 +209,7 @@ impl Sched {
             }
             st.threads[me] = ThreadState::Parked(want_cell);
             Self::decide(&mut st, Some(me), label);
-            self.cv.notify_all();
+            self.publish(&st);
         }
         self.wait_for_turn(me);
     }
@@ -193,12 +220,25 @@ impl Sched {
         if !st.aborted {
             Self::decide(&mut st, Some(me), "exit");
         }
+        self.publish(&st);
         self.cv.notify_all();
     }
 }
 
 /// A scheduling point reached from one of the seams (no-op on threads that are not managed)
+static FINE: std::sync::atomic::AtomicBool = std::sync::atomic::AtomicBool::new(false);
+
+/// Fine granularity: every transcript operation and every group operation is a scheduling point. Coarse: challenge
+/// draws, transcript-RNG finalisation, construction / use of the shared precomputed table, and the once-cell events.
+pub fn set_fine(on: bool) {
+    FINE.store(on, std::sync::atomic::Ordering::SeqCst);
+    crate::fg::set_fine_points(on);
+}
+
 pub fn point(label: &'static str) {
+    if label == "merlin.other" && !FINE.load(std::sync::atomic::Ordering::Relaxed) {
+        return;
+    }
     let cur = CURRENT.with(|c| c.borrow().clone());
     if let Some((s, me)) = cur {
         s.park(me, None, label);
@@ -211,6 +251,15 @@ fn hook_sink(ev: HookEvent) {
         Some(x) => x,
         None => return,
     };
+    // only the two once-cells of src/ristretto.rs have blocking (get_or_init) semantics; events carrying any other
+    // index are plain scheduling points, so code that reports its own lazily built state is interleaved freely
+    let cell = match ev {
+        HookEvent::CellEnter(c) | HookEvent::InitBegin(c) | HookEvent::InitElem(c, _) | HookEvent::InitEnd(c) => c,
+    };
+    if cell >= 2 {
+        s.park(me, None, "foreign-cell-event");
+        return;
+    }
     match ev {
         HookEvent::CellEnter(c) => s.park(me, Some(c), "cell-enter"),
         HookEvent::InitBegin(c) => {
@@ -309,6 +358,7 @@ pub fn run_execution(bodies: Vec<Body>, prefix: &[usize], cells_done: bool, inte
                 crate::fg::set_intern(h);
             }
             CURRENT.with(|c| *c.borrow_mut() = Some((s.clone(), i)));
+            s.register(i);
             let r = std::panic::catch_unwind(std::panic::AssertUnwindSafe(|| {
                 s.wait_for_turn(i);
                 body()
@@ -326,7 +376,7 @@ pub fn run_execution(bodies: Vec<Body>, prefix: &[usize], cells_done: bool, inte
     {
         let mut st = sched.state.lock().unwrap();
         Sched::decide(&mut st, None, "start");
-        sched.cv.notify_all();
+        sched.publish(&st);
     }
     let results: Vec<Result<Vec<u8>, String>> = handles.into_iter().map(|h| h.join().unwrap_or_else(|_| Err("join failed".into()))).collect();
     let st = sched.state.lock().unwrap();
@@ -439,7 +489,10 @@ where
             });
         }
     });
-    stats.into_inner().unwrap()
+    let mut st = stats.into_inner().unwrap();
+    st.violations.sort();
+    st.machinery.sort();
+    st
 }
 
 // ---------------------------------------------------------------------------------------------------------------
